@@ -156,7 +156,9 @@ def run(ctx):
         # enumerated arm: complete plan space (single + pair failures, every abort point) per scenario
         from hypothesis import strategies as st
 
-        enum = xfer.cases(closed_only=True, allow_verify=True).map(lambda c: dict(c, enumerate=True, jobs=1))
+        # (never with the > 1000-file directory: its plan space is not enumerable)
+        enum = xfer.cases(closed_only=True, allow_verify=True).map(
+            lambda c: dict(c, enumerate=True, jobs=1, bulk=0))
         ctx.run_given(enum, run_case, ctx.n(quick=8, thorough=150))
 
 
